@@ -586,3 +586,77 @@ reg(Contract(
                                   ghost_init=lambda c: dict(stop_ghost(c), TRAJ=c.st.ghost["TRAJ"]))},
     overrides={"EngineBase.add_to_path": _atp_summary()},
 ))
+
+
+# ------------------------------------------------------------------ _extract_frame: frame idx of a multi-frame file is what gets written (C19)
+LMP_PY = "infretis/classes/engines/lammps.py"
+
+
+class SnapIter:
+    """read_xyz_file(traj_file): the k-th snapshot is file frame k (reader contract)."""
+
+    def __init__(self, n, src):
+        self.n, self.src = n, src
+
+    def pyvc_elem_at(self, it, st, ex):
+        return Frame(it, "snapshot"), self.n
+
+
+def _read_xyz_file(ex, st, bound, node):
+    st.ghost = dict(st.ghost, read_from=bound["filename"])
+    yield st, SnapIter(st.ghost["nframes"], bound["filename"])
+
+
+def _convert_snapshot(ex, st, bound, node):
+    f = bound["snapshot"]
+    yield st, (Frame(f.fid, "box"), Frame(f.fid, "xyz"), Frame(f.fid, "vel"), Frame(f.fid, "names"))
+
+
+def _xf_write(ex, st, bound, node):
+    g = st.ghost
+    idx = _iv(st.env["idx"])
+    for nm in ("pos", "vel", "names", "box"):
+        ex.oblige(st, f"written_{nm}_belong_to_frame_idx@{node.lineno}", z3.And(z3.BoolVal(isinstance(bound[nm], Frame)), _fid(bound[nm]) == idx) if isinstance(bound[nm], Frame) else z3.BoolVal(False))
+    ex.oblige(st, f"written_arrays_are_in_their_own_slots@{node.lineno}", z3.BoolVal([getattr(bound[nm], "what", None) for nm in ("pos", "vel", "names", "box")] == ["xyz", "vel", "names", "box"]))
+    ex.oblige(st, f"output_file_is_overwritten_with_one_frame@{node.lineno}", z3.BoolVal(bound["filename"] is st.env["out_file"] and bound.get("append") is False))
+    st.ghost = dict(g, written=g["written"] + 1)
+    yield st, None
+
+
+def _isfile(ex, st, bound, node):
+    yield st, fresh("exists", BOOL)
+
+
+def _xf_make(ex, st):
+    n, idx = fresh("nframes", INT), fresh("idx", INT)
+    st.assume(n >= 0)
+    st.ghost = dict(st.ghost, nframes=n, written=z3.IntVal(0))
+    return {"self": DriverSelf("idx"), "traj_file": "traj.xyz", "idx": idx, "out_file": "out.xyz"}
+
+
+def _xf_post(c):
+    g = c.st.ghost
+    idx = _iv(c.a("idx"))
+    return [("reads_the_given_trajectory", z3.BoolVal(g.get("read_from") == "traj.xyz")),
+            ("exactly_one_frame_written_when_the_index_exists", z3.Implies(z3.And(0 <= idx, idx < g["nframes"]), g["written"] == 1)),
+            ("nothing_written_when_the_index_does_not_exist", z3.Implies(z3.Or(idx < 0, idx >= g["nframes"]), g["written"] == 0))]
+
+
+_XF_OVR = {
+    "read_xyz_file": Contract("read_xyz_file", params=["filename"], custom=_read_xyz_file),
+    "convert_snapshot": Contract("convert_snapshot", params=["snapshot"], custom=_convert_snapshot),
+    "write_xyz_trajectory": Contract("write_xyz_trajectory", params=["filename", "pos", "vel", "names", "box", "step", "append"], defaults={"step": None, "append": True}, custom=_xf_write),
+    "os.path.isfile": Contract("os.path.isfile", params=["p"], custom=_isfile),
+}
+_FR = __import__("pyvc.interp", fromlist=["FuncRef"]).FuncRef
+IMPORTS["read_xyz_file"] = _FR("infretis/classes/engines/engineparts.py", "read_xyz_file")
+IMPORTS["convert_snapshot"] = _FR("infretis/classes/engines/engineparts.py", "convert_snapshot")
+for _key, _src in (("CP2KEngine._extract_frame", (CP2K_PY, "CP2KEngine._extract_frame")), ("TurtleMDEngine._extract_frame", (TMD_PY, "TurtleMDEngine._extract_frame"))):
+    reg(Contract(
+        _key, src=_src, cases=[Case("sym", _xf_make)], ensures=[("extract", _xf_post)],
+        canaries=[("never_writes", lambda c: c.st.ghost["written"] == 0)],
+        loops={"for:i,snapshot": LoopSpec(lambda ctx: [("nothing_written_before_the_match", ctx.st.ghost["written"] == 0),
+                                                       ("index_not_passed_yet", z3.Or(_iv(ctx.old.env["idx"]) < 0, _iv(ctx.old.env["idx"]) >= ctx.it))],
+                                          ghost_init=lambda c: {"written": c.st.ghost["written"]})},
+        overrides=_XF_OVR,
+    ))
